@@ -26,7 +26,7 @@ ANCHORS = [("leuvenmapmatching/matcher/base.py", "BaseMatching.next"),
            ("leuvenmapmatching/matcher/simple.py", "SimpleMatcher.logprob_obs")]
 FLOORS = {"states_rescored": 12000, "nonemitting_states_rescored": 1500, "paths_rescored": 3000, "paths_with_nonemitting": 600,
           "paths_after_widen": 300, "paths_after_extend": 300, "family:distance": 600, "family:simple": 600, "family:simple_nodes": 600,
-          "second_order_paths": 800, "latlon_paths": 500}
+          "second_order_paths": 800, "latlon_paths": 500, "paths_with_unconnected_move": 20}
 ASSUMPTIONS = ["geometry (projection points, relative positions, dist_obs) is taken as reported after self-consistency predicates; its truth is C05/C13",
                "log-probabilities compared at 1e-9*max(1,|x|)"]
 
@@ -36,6 +36,15 @@ def gen_case(rng, i, tier):
     if rng.random() < 0.15:
         from .C05 import to_latlon
         to_latlon(case, rng)  # street-scale latitude-longitude map, parameters in metres
+    elif case["cfg"]["family"] != "simple_nodes" and rng.random() < 0.12:
+        es = gen.real_edges(case["map"])  # linked parallel edges: moves between edges that are not connected through a node
+        if len(es) >= 2:
+            linked = []
+            for _ in range(rng.randint(1, 4)):
+                a, b = rng.sample(es, 2)
+                linked.append([list(a), list(b)])
+                linked.append([list(b), list(a)])
+            case["map"]["linked"] = linked
     case["ops"] = gen.gen_history(rng, len(case["trace"]), case["cfg"]["width"], allow_cwd=False, max_ops=4)
     if not case.get("large") and not case["map"].get("latlon"):
         gen.add_pre_trace(rng, case)
@@ -63,6 +72,11 @@ def check_case(ctx, case):
         ctx.count(f"family:{fam}")
         if model.latlon:
             ctx.count("latlon_paths")
+        if case["map"].get("linked"):
+            lb = mt.lattice_best
+            if any(isinstance(x.shortkey, tuple) and isinstance(y.shortkey, tuple) and x.shortkey != y.shortkey
+                   and x.shortkey[1] != y.shortkey[0] for x, y in zip(lb, lb[1:])):
+                ctx.count("paths_with_unconnected_move")
         if case["cfg"]["agb"]:
             ctx.count("second_order_paths")
         if any(x.obs_ne for x in mt.lattice_best):
